@@ -203,6 +203,14 @@ def handleC16 : List String → Option String
     let cls ← cls.toNat?
     let ty ← ty.toNat?
     some (showChain (resolveChaining ConstsC16.maxChain r q cls ty))
+  | ["c16.timeout", life, timeout, start, now] => do
+    let life ← life.toNat?
+    let timeout ← timeout.toNat?
+    let start ← start.toInt?
+    let now ← now.toInt?
+    some (match computeTimeoutZ life timeout start now with
+      | some t => "ok " ++ toString t
+      | none => "LifetimeTimeout")
   | "c16.run" :: variant :: cfg :: rest => do
     let clip ← (if variant = "shipped" then some false else if variant = "clipped" then some true else none)
     let cfg ← parseCfg cfg
